@@ -347,11 +347,11 @@ theorem count1 (p : PCfg) (f : Fmt) (hc : contOK p = true) (h10 : p.asciiSpaces.
     -- the children: second normalisation of the normalised children, counted
     obtain ⟨hk1, hk2⟩ := countL p f hc h10 ks (pushCtx p ctx (fullName i)) false false [] [] hctx' (by simp [Rel2])
     have hcl := close_count p f h10 _ hctx' _ _ _ _ hk2
-    have hfn : fullName ⟨fullName i, none, normAttrs p f (fullName i) i.attrs, p.voidTags.contains (fullName i), false⟩ = fullName i := by
+    have hfn : fullName ⟨fullName i, none, normAttrs p f (fullName i) i.attrs, p.isVoid (fullName i), false⟩ = fullName i := by
       simp [fullName, prefixStr]
-    have hX : ∀ c2, absorb1 p f ctx c2 (Node.tag ⟨fullName i, none, normAttrs p f (fullName i) i.attrs, p.voidTags.contains (fullName i), false⟩
+    have hX : ∀ c2, absorb1 p f ctx c2 (Node.tag ⟨fullName i, none, normAttrs p f (fullName i) i.attrs, p.isVoid (fullName i), false⟩
           ((absorb p f (pushCtx p ctx (fullName i)) [] ks).1 ++ txt p (pushCtx p ctx (fullName i)) (absorb p f (pushCtx p ctx (fullName i)) [] ks).2)) =
-        (txt p ctx c2 ++ [Node.tag ⟨fullName i, none, normAttrs p f (fullName i) (normAttrs p f (fullName i) i.attrs), p.voidTags.contains (fullName i), false⟩
+        (txt p ctx c2 ++ [Node.tag ⟨fullName i, none, normAttrs p f (fullName i) (normAttrs p f (fullName i) i.attrs), p.isVoid (fullName i), false⟩
           ((absorb p f (pushCtx p ctx (fullName i)) [] ((absorb p f (pushCtx p ctx (fullName i)) [] ks).1 ++
               txt p (pushCtx p ctx (fullName i)) (absorb p f (pushCtx p ctx (fullName i)) [] ks).2)).1 ++
             txt p (pushCtx p ctx (fullName i)) (absorb p f (pushCtx p ctx (fullName i)) [] ((absorb p f (pushCtx p ctx (fullName i)) [] ks).1 ++
